@@ -205,7 +205,12 @@ func c07(r *engine.Report, p *engine.Program) {
 						continue
 					}
 					n++
-					r.Add("O14-remote-shutdown", engine.FuncName(engine.Outermost(f))+": calls Shutdown on the strength of a peer's message", cs.Pos(), engine.Violated,
+					site := engine.FuncName(engine.Outermost(f))
+					// a private helper extracted from the update handler is the handler's own code
+					if owner := privateHelperOf(p, engine.Outermost(f), map[string]bool{"(*netceptor.Netceptor).handleRoutingUpdate": true}); owner != "" {
+						site = owner
+					}
+					r.Add("O14-remote-shutdown", site+": calls Shutdown on the strength of a peer's message", cs.Pos(), engine.Violated,
 						"Shutdown() is reachable from bytes a backend peer sent: a routing update naming this node's ID with SuspectedDuplicate equal to this node's epoch (which the node discloses in its own updates) and a different UpdateEpoch makes the node cancel its root context — one message from any established peer stops the node for all its other peers")
 				}
 			}
